@@ -171,6 +171,9 @@ Crash(p) ==                        \* SIGKILL / power loss: shared files stay as
   /\ loaded' = [loaded EXCEPT ![p] = "none"]
   /\ UNCHANGED <<want, fin, readok, dead, failed, reqs>>
 
+TimePasses == UNCHANGED vars     \* builds may take arbitrarily long: the protocol has no timing assumption (the
+                                 \* harness ages every artefact by an hour in the middle of a race)
+
 Restart(p) ==                      \* the slot of a finished process is taken by a fresh interpreter
   /\ pc[p] = "done" /\ reqs[p] < MaxReq
   /\ pc' = [pc EXCEPT ![p] = "idle"]
@@ -180,7 +183,7 @@ Fixed(p)  == MkDir(p) \/ PyxOpen(p) \/ PyxWrite(p) \/ Cythonize(p) \/ Build(p) \
 Leg(p)    == LTrunc(p) \/ LWrite(p) \/ LCy0(p) \/ LCy1(p) \/ LCc0(p) \/ LCc1(p) \/ LLd0(p) \/ LLd1(p)
 Work(p)   == Import1(p) \/ Import2(p) \/ (IF Legacy THEN Leg(p) ELSE Fixed(p))
 
-Next == \E p \in Procs : (\E m \in Srcs : Request(p, m)) \/ Work(p) \/ Crash(p) \/ Restart(p)
+Next == TimePasses \/ \E p \in Procs : (\E m \in Srcs : Request(p, m)) \/ Work(p) \/ Crash(p) \/ Restart(p)
 
 Spec     == Init /\ [][Next]_vars
 FairSpec == Spec /\ \A p \in Procs : WF_vars(Work(p))
